@@ -247,3 +247,36 @@ pub fn xz_write_index_300_300() {
 pub fn xz_write_index_16383_127() {
     write_index_unit::<16383, 127>()
 }
+
+
+//@ harness props=C04,C03 tier=quick unwind=12 unwindset=write_multibyte:11,get_multibyte:11,default_read_exact:4,RecSink.*write_all:4 mem_gb=6 timeout=900
+//@ bound: write_multibyte (encoder) then get_multibyte (decoder) on ANY value below 2^63 (1..9 encoded bytes): the decoder returns the value and consumes exactly what the encoder wrote; encoding is minimal
+#[cfg_attr(kani, kani::proof)]
+#[cfg_attr(kani, kani::stub(std::fmt::format, crate::verif_common::stub_format))]
+#[cfg_attr(kani, kani::stub(std::io::Error::is_interrupted, crate::verif_common::stub_not_interrupted))]
+pub fn xz_multibyte_roundtrip() {
+    let mut t = Tape::<16>::new();
+    let v = t.u64() >> 1;
+    let mut sink = RecSink::<12>::new();
+    let r = write_multibyte(&mut sink, v);
+    let wrote_ok = r.is_ok();
+    forget(r);
+    vassert!(wrote_ok && !sink.overflow, "xz multibyte: writing succeeds on a healthy sink");
+    let n = sink.len;
+    vassert!(n >= 1 && n <= 9, "xz multibyte: 1..9 bytes for a value below 2^63");
+    let mut rd = ArrReader::<12>::new(sink.buf, n);
+    let g = crate::decode::xz::get_multibyte(&mut rd);
+    match &g {
+        Ok(x) => {
+            vassert!(*x == v, "xz multibyte: the decoder reads back the value the encoder wrote");
+            vassert!(rd.pos == n, "xz multibyte: the decoder consumes exactly the bytes the encoder wrote");
+        }
+        Err(_) => {
+            vassert!(false, "xz multibyte: every value the encoder can write is accepted by the decoder");
+        }
+    }
+    vassert!(n == 1 || sink.buf[n - 1] != 0, "xz multibyte: minimal encoding (no trailing zero group)");
+    vcover!(n == 9, "nine_byte_value");
+    vcover!(n == 4, "four_byte_value");
+    forget(g);
+}
